@@ -212,6 +212,8 @@ def explore_chain(item):
     n = sp["n"] + 1
 
     def members():
+        if order == 2:  # mixed forms, source first: a config dict for the source, an object for the reader
+            return [dict({"indicator": a_cls}, **a_kw), INDICATOR_MAP[b_cls](**b_kw)]
         m = [INDICATOR_MAP[a_cls](**a_kw), INDICATOR_MAP[b_cls](**b_kw)]
         return m if order == 0 else m[::-1]
 
@@ -219,6 +221,7 @@ def explore_chain(item):
         return tuple((k, canon_candles(v)) for k, v in sorted(hx.get_candles().items()))
 
     kw = {"timeframe": tf} if tf else {}
+    same_as_objects = None
     for word in A.words(sp["sigma"][:3], n):
         raw = raw_stream(word, "+" if tf else "b", ("h" if tf else "t") * (n - 1), tf)
         case = {"cfg": f"chain{ci}", "chain": ci, "order": order, "tfc": (tf, False, None, None), "raw": raw}
@@ -228,6 +231,12 @@ def explore_chain(item):
                 hb.calculate()
                 B = view(hb)
                 rep.inc("executions")
+                if order == 2:  # the form in which a member is given must not matter: same result as two objects, source first
+                    ho = Hexital("o", fresh(raw), [INDICATOR_MAP[a_cls](**a_kw), INDICATOR_MAP[b_cls](**b_kw)], **kw)
+                    ho.calculate()
+                    if view(ho) != B:
+                        rep.violation(f"{prop}|chain-form-matters|{b_cls}<-{a_cls}", dict(case, comp=(n,), oracle="chain-form", diff=first_diff(B, view(ho))))
+                        continue
                 for comp in A.compositions(n):
                     hx = Hexital("s", [], members(), **kw)
                     pos, snaps = 0, []
@@ -440,6 +449,8 @@ def replay(case):
     orc = case.get("oracle")
     if case.get("why"):
         return True
+    if orc == "chain-form":
+        return True
     if orc in ("chain-final", "chain-repaint"):
         return explore_chain_one(case, "C01" if orc == "chain-final" else "C02")
     if orc in ("hset-final", "hset-repaint"):
@@ -499,6 +510,8 @@ def explore_chain_one(case, prop):
     raw = [tuple(r) for r in case["raw"]]
 
     def members():
+        if case["order"] == 2:
+            return [dict({"indicator": a_cls}, **a_kw), INDICATOR_MAP[b_cls](**b_kw)]
         m = [INDICATOR_MAP[a_cls](**a_kw), INDICATOR_MAP[b_cls](**b_kw)]
         return m if case["order"] == 0 else m[::-1]
 
@@ -546,7 +559,7 @@ def main(prop, tier):
     gap_items += [(prop, tier, l, sp["plumb_tfcs"][0], first, g0, 400000) for l in ("OBV", "VWAP", "EMA2", "ST2") for first in "+b" for g0 in sp["plumb_gaps"]]
     reps += pmap(explore_gaps, gap_items)
     reps += pmap(explore_hset, [(prop, tier, hi, hfill, k0) for hi in range(len(HSETS)) for hfill in (False, True) for k0 in (0, 3)])
-    reps += pmap(explore_chain, [(prop, tier, ci, order, tf) for ci in range(len(CHAINS)) for order in (0, 1) for tf in (None, "T2")])
+    reps += pmap(explore_chain, [(prop, tier, ci, order, tf) for ci in range(len(CHAINS)) for order in (0, 1, 2) for tf in (None, "T2")])
     step_its = []
     for cfg in ALL:
         for tfc, gkinds in sp["tfcs"]:
